@@ -22,7 +22,7 @@ VARIABLE cfg
 vars == <<cfg>>
 
 Dims(n, S) == IF n = 1 THEN {<<a>> : a \in S} ELSE {<<a, b>> : a \in S, b \in S}
-ND == IF Kind \in {"sw1", "conv1", "pool1"} THEN 1 ELSE 2
+ND == IF Kind \in {"sw1", "conv1", "pool1", "big"} THEN 1 ELSE 2
 
 SwConfigs == {[kind |-> "sw", lead |-> l, x |-> x, w |-> w, s |-> s, d |-> d, dgiven |-> dg] :
                 l \in {0, 2}, x \in Dims(ND, 1..MaxX), w \in Dims(ND, 1..MaxW), s \in Dims(ND, 1..MaxS),
@@ -38,7 +38,16 @@ HingeConfigs == {[kind |-> "hinge", n |-> n, c |-> c, h2 |-> h, variant |-> v] :
 MarginConfigs == {[kind |-> "margin", n |-> n, m2 |-> m, variant |-> v] : n \in 1..4, m \in {0, 1, 2, 5}, v \in 1..2}
 \* negative_log_likelihood(x, y, weights) = -(1/N) sum_i w[y_i] x[i, y_i] ; weights default to ones ; labels as for hinge
 NllConfigs == {[kind |-> "nll", n |-> n, c |-> c, variant |-> v, weighted |-> w] : n \in 1..3, c \in 1..3, v \in 1..2, w \in BOOLEAN}
-Configs == IF Kind \in {"sw1", "sw2"} THEN {c \in SwConfigs : c.dgiven \/ \A i \in 1..ND : c.d[i] = 1}
+\* long axes (10^5 .. 10^6 elements, one spatial dimension): acceptance and output shape only - the tiling rule is exact
+\* integer arithmetic whatever the magnitudes.  x = k*s + extent - 2p + r  with a leftover r in 0..2
+BigKS == {<<999, 160>>, <<100000, 3>>, <<400000, 2>>, <<31250, 32>>, <<65536, 5>>}
+BigPool == {[kind |-> "pool", big |-> TRUE, n |-> 1, x |-> <<ks[1] * ks[2] + w + r>>, w |-> <<w>>, s |-> <<ks[2]>>] :
+              ks \in BigKS, w \in {2, 3}, r \in 0..2}
+BigConv == {[kind |-> "conv", big |-> TRUE, n |-> 1, c |-> 1, f |-> 1, x |-> <<ks[1] * ks[2] + ((w - 1) * d + 1) - 2 * p + r>>,
+             w |-> <<w>>, s |-> <<ks[2]>>, p |-> <<p>>, d |-> <<d>>] :
+              ks \in BigKS, w \in {2, 3}, r \in 0..2, p \in {0, 2}, d \in {1, 2}}
+Configs == IF Kind = "big" THEN BigPool \cup BigConv ELSE
+           IF Kind \in {"sw1", "sw2"} THEN {c \in SwConfigs : c.dgiven \/ \A i \in 1..ND : c.d[i] = 1}
            ELSE IF Kind \in {"conv1", "conv2"} THEN ConvConfigs
            ELSE IF Kind = "losses" THEN HingeConfigs \cup MarginConfigs \cup NllConfigs ELSE PoolConfigs
 
@@ -147,14 +156,16 @@ Expected(c) ==
          IF SwRule(c) THEN [accept |-> TRUE, shape |-> SwOutShape(c), gather |-> SwGather(c), kf |-> ""]
          ELSE [accept |-> FALSE, kf |-> ""]
     [] c.kind = "conv" ->
-         IF ConvValid(c) THEN [accept |-> TRUE, shape |-> ConvOutShape(c), vals |-> ConvOut(c),
+         IF ConvValid(c) /\ "big" \in DOMAIN c THEN [accept |-> TRUE, shape |-> ConvOutShape(c), kf |-> IF KF_C16_1(c) THEN "F-C16-1" ELSE ""]
+         ELSE IF ConvValid(c) THEN [accept |-> TRUE, shape |-> ConvOutShape(c), vals |-> ConvOut(c),
                                kf |-> IF KF_C16_1(c) THEN "F-C16-1" ELSE ""]
          ELSE [accept |-> FALSE, kf |-> ""]
     [] c.kind = "hinge"  -> [accept |-> TRUE, num |-> Hinge2Sum(c), den |-> 2 * c.n, kf |-> ""]
     [] c.kind = "nll"    -> [accept |-> TRUE, num |-> -NllSum(c), den |-> c.n, kf |-> ""]
     [] c.kind = "margin" -> [accept |-> TRUE, num |-> Margin2Sum(c), den |-> 2 * c.n, kf |-> ""]
     [] c.kind = "pool" ->
-         IF PoolValid(c) THEN [accept |-> TRUE, shape |-> PoolOutShape(c), vals |-> PoolOut(c), kf |-> ""]
+         IF PoolValid(c) /\ "big" \in DOMAIN c THEN [accept |-> TRUE, shape |-> PoolOutShape(c), kf |-> ""]
+         ELSE IF PoolValid(c) THEN [accept |-> TRUE, shape |-> PoolOutShape(c), vals |-> PoolOut(c), kf |-> ""]
          ELSE [accept |-> FALSE, kf |-> ""]
 
 Init == cfg \in Configs
